@@ -165,6 +165,10 @@ pub fn gen_link(r: &mut Rng, idx: u32, o: &NetOpts) -> Link {
         if r.chance(0.5) {
             map.insert(TrainType::Passenger, speed_set(r, len_units, o));
         }
+        // entries for train types no generated train has (incl. the untyped default key): a lookup for one type must
+        // never depend on which other keys the map holds, nor on the order in which it iterates
+        if r.chance(0.4) { map.insert(TrainType::None, speed_set(r, len_units, o)); }
+        if r.chance(0.3) { map.insert(TrainType::Intermodal, speed_set(r, len_units, o)); }
         (map, None)
     } else {
         (HashMap::new(), Some(speed_set(r, len_units, o)))
